@@ -1170,7 +1170,7 @@ class PeptideVariantGraph():
                         start_gain = [v.variant for v in target_node.variants
                             if not v.variant.is_circ_rna() and v.not_cleavage_altering()]
                         orf.start_gain.update(start_gain)
-                    elif not orf.start_gain:
+                    else:
                         start_gain = [v.variant for v in target_node.variants
                             if v.variant.is_frameshifting()
                                 and v.not_cleavage_altering()
